@@ -328,11 +328,17 @@ def _first_bad_l(err, tol, ls):
 
 def _run_atom(ctx, params):
     rng = ctx.rng
-    g = F = None
+    g = None
     with ctx.guard("constructible", f"AtomGrid:{params['method']}:{params['deg']}:{params['radial']}"):
         g, info = _build_atom(ctx, params, rng)
     if g is None:
         return
+    _check_grid(ctx, g, info, rng, forms=True)
+
+
+def _check_grid(ctx, g, info, rng, forms=False, note=""):
+    """All clauses of the property for ONE use of one atomic grid with a fresh random band-limited function."""
+    F = None
     c = info["center"]
     r0kind, mixed = _classes(ctx, g, info)
     degs = np.asarray(g.degrees).astype(int)
@@ -355,12 +361,12 @@ def _run_atom(ctx, params):
     with np.errstate(divide="ignore"):
         delta = np.where(r > 0, 4 * np.finfo(float).eps * float(np.max(np.abs(c))) / np.where(r > 0, r, 1.0), 0.0)
     relax = 1.0 + (K + 1) * delta / TOL_VALUE  # per shell; == 1 to 1e-2 for every shell with r_i >= 1e-5 |centre|
-    ctx.case_note("max_conditioning_relaxation", float(relax.max()))
-    ctx.case_note("shells", int(g.n_shells))
-    ctx.case_note("points", int(g.size))
-    ctx.case_note("L", L)
-    ctx.case_note("l_max", int(degs.max()))
-    ctx.case_note("r_first_last", [float(r[0]), float(r[-1])])
+    ctx.case_note(note + "max_conditioning_relaxation", float(relax.max()))
+    ctx.case_note(note + "shells", int(g.n_shells))
+    ctx.case_note(note + "points", int(g.size))
+    ctx.case_note(note + "L", L)
+    ctx.case_note(note + "l_max", int(degs.max()))
+    ctx.case_note(note + "r_first_last", [float(r[0]), float(r[-1])])
     if L < 1:
         ctx.trivial()
 
